@@ -1,0 +1,24 @@
+//go:build verif
+
+package document
+
+// Read-only accessors used by the verification harness in /verif (build tag "verif").
+// Nothing here is compiled into normal builds.
+
+import (
+	"github.com/benoitkugler/webrender/backend"
+	bo "github.com/benoitkugler/webrender/html/boxes"
+	mt "github.com/benoitkugler/webrender/matrix"
+)
+
+// VerifPageBox returns the laid-out page box of the page.
+func (p Page) VerifPageBox() *bo.PageBox { return p.pageBox }
+
+// VerifGetMatrix exposes getMatrix (CSS transform of a box).
+func VerifGetMatrix(box Box) (mt.Transform, bool) { return getMatrix(box) }
+
+// VerifResolveLinks exposes resolveLinks.
+func (d *Document) VerifResolveLinks() ([][]Link, [][]backend.Anchor) { return d.resolveLinks() }
+
+// VerifMakeBookmarkTree exposes makeBookmarkTree.
+func (d *Document) VerifMakeBookmarkTree() []backend.BookmarkNode { return d.makeBookmarkTree() }
